@@ -6,6 +6,9 @@ import OptreeModel.Lemmas.EncInspect
 import OptreeModel.Lemmas.EncTransform
 import OptreeModel.Lemmas.EncConstruct
 import OptreeModel.Properties.C06
+import OptreeModel.Properties.C02
+import OptreeModel.Lemmas.Graft
+import OptreeModel.Lemmas.UpToPrefix
 
 namespace Optree
 
@@ -303,5 +306,77 @@ def C08_demo : STree :=
      .node ⟨.tuple, .none, Option.none, Option.none, Option.none⟩ [.leaf]]
 
 example : C08_demo.wf = true ∧ C08_demo.size = 7 ∧ (C08_demo.subst C08_demo).leaves = 16 := by decide
+
+
+/-! ### compose at the level of trees -/
+
+theorem flatten_ns (cfg : Cfg) (t : PyObj) (ls : List PyObj) (sp : Spec) (h : flatten cfg t = .ok (ls, sp)) :
+    (sp.ns = cfg.ns ∨ sp.ns = "") ∧ sp.noneIsLeaf = cfg.noneIsLeaf := by
+  unfold flatten at h
+  simp only at h
+  split at h
+  · simp at h
+  · simp only [Except.ok.injEq, Prod.mk.injEq] at h
+    obtain ⟨_, h2⟩ := h
+    subst h2
+    simp only [and_true]
+    split <;> simp
+
+/-- **`a.compose(b)` is the structure of an a-shaped tree whose every leaf is a b-shaped tree, and the leaves of
+such a tree are the leaves of the b-shaped trees in order (so `num_leaves` multiply).**
+`ta.mapLeaves cfg σ` replaces every leaf of `ta` by `σ leaf`; every `σ leaf` has the shape of `tb`.  If the
+grafted tree flattens at all (it is within the depth limit), its treespec has exactly the node array of
+`treespec(ta).compose(treespec(tb))` and its leaves are the concatenation of the leaves of the `σ leaf`
+(`Lemmas/Graft.lean`: structural induction, dict children re-sorted under the same keys). -/
+theorem C08_compose_is_structure (cfg : Cfg) (hp : cfg.pred = Option.none) (ta tb : PyObj)
+    (hwa : ta.wf = true) (hwb : tb.wf = true) (σ : PyObj → PyObj) (hσw : ∀ p, (σ p).wf = true)
+    (hσ : ∀ p, shapeOf cfg (!cfg.insertionOrdered) (σ p) = shapeOf cfg (!cfg.insertionOrdered) tb)
+    (la : List PyObj) (sa : Spec) (ha : flatten cfg ta = .ok (la, sa))
+    (lb : List PyObj) (sb : Spec) (hb : flatten cfg tb = .ok (lb, sb))
+    (lc : List PyObj) (sc : Spec) (hc : flatten cfg (ta.mapLeaves cfg σ) = .ok (lc, sc)) :
+    (∃ c, compose sa sb = .ok c ∧ c.nodes = sc.nodes ∧ c.noneIsLeaf = sc.noneIsLeaf) ∧
+      lc = la.flatMap (fun p => leavesOf cfg (!cfg.insertionOrdered) (σ p)) ∧
+      sc.numLeaves = sa.numLeaves * sb.numLeaves := by
+  obtain ⟨ea, _⟩ := flatten_shapeOf cfg hp ta hwa la sa ha
+  obtain ⟨eb, _⟩ := flatten_shapeOf cfg hp tb hwb lb sb hb
+  obtain ⟨ec, _⟩ := flatten_shapeOf cfg hp _ (wf_mapLeaves cfg σ hσw ta hwa) lc sc hc
+  obtain ⟨wa, _⟩ := wg cfg (!cfg.insertionOrdered) ta hwa
+  obtain ⟨wb, _⟩ := wg cfg (!cfg.insertionOrdered) tb hwb
+  obtain ⟨nsa, nila⟩ := flatten_ns cfg ta la sa ha
+  obtain ⟨nsb, nilb⟩ := flatten_ns cfg tb lb sb hb
+  obtain ⟨_, nilc⟩ := flatten_ns cfg _ lc sc hc
+  have hcompat : nsCompatible sa.ns sb.ns = true := by
+    unfold nsCompatible
+    rcases nsa with h | h <;> rcases nsb with h' | h' <;> simp [h, h']
+  rw [shapeOf_mapLeaves cfg _ σ _ hσ ta] at ec
+  obtain ⟨hcomp, _, hleaves⟩ := C08_compose_refines _ _ wa wb cfg.noneIsLeaf sa.ns sb.ns hcompat
+  have h1 : compose sa sb = compose ((shapeOf cfg (!cfg.insertionOrdered) ta).spec cfg.noneIsLeaf sa.ns)
+      ((shapeOf cfg (!cfg.insertionOrdered) tb).spec cfg.noneIsLeaf sb.ns) := by rw [← ea, ← eb]
+  refine ⟨⟨((shapeOf cfg (!cfg.insertionOrdered) ta).subst (shapeOf cfg (!cfg.insertionOrdered) tb)).spec
+      cfg.noneIsLeaf (mergeNs sa.ns sb.ns), ?_, ?_, ?_⟩, ?_, ?_⟩
+  · rw [h1]; exact hcomp
+  · rw [ec]; simp [STree.spec]
+  · rw [ec]; simp [STree.spec]
+  · rw [C02_leaf_order cfg _ lc sc hc, leavesOf_mapLeaves cfg hp _ σ ta, ← C02_leaf_order cfg ta la sa ha]
+  · have e1 : sc.numLeaves = ((shapeOf cfg (!cfg.insertionOrdered) ta).subst (shapeOf cfg (!cfg.insertionOrdered) tb)).leaves := by
+      rw [ec]; exact STree.spec_numLeaves _ _ _
+    have e2 : sa.numLeaves = (shapeOf cfg (!cfg.insertionOrdered) ta).leaves := by
+      rw [ea]; exact STree.spec_numLeaves _ _ _
+    have e3 : sb.numLeaves = (shapeOf cfg (!cfg.insertionOrdered) tb).leaves := by
+      rw [eb]; exact STree.spec_numLeaves _ _ _
+    rw [e1, e2, e3, hleaves]
+
+/-- non-vacuity: `(x, [y])` grafted with `{"k": *}`-shaped trees -/
+example :
+    let cfg : Cfg := {}
+    let ta := PyObj.tuple [.leaf 0 1, .list [.leaf 0 2]]
+    let tb := PyObj.dict [(.str "k", .leaf 0 3)]
+    let σ : PyObj → PyObj := fun p => .dict [(.str "k", p)]
+    (match flatten cfg ta, flatten cfg tb, flatten cfg (ta.mapLeaves cfg σ) with
+     | .ok (_, sa), .ok (_, sb), .ok (lc, sc) =>
+        (match compose sa sb with
+         | .ok c => c.nodes == sc.nodes && lc == [PyObj.leaf 0 1, .leaf 0 2] && sc.numLeaves == 2
+         | .error _ => false)
+     | _, _, _ => false) = true := by decide
 
 end Optree
